@@ -196,6 +196,7 @@ def scripted(name):
                                             D, D, D, D],
         'postponed_rekey_then_child': HANDSHAKE + [['rekey_ike', 'A'], ['rekey_ike', 'B'], D, D, D, D,
                                                    ['acquire', 'A', 81], D, D, D, D, ['expire', 'B', 0, 0], D, D, D, D, D, D],
+        'crossing_children': HANDSHAKE + [['acquire', 'A', 81], ['acquire', 'B', 0], D, D, D, D],
         'ike_spi_reuse': HANDSHAKE + [['force_ike_spi', 'B', 'A'], ['rekey_ike', 'A'], D, D, D, D,
                                       ['acquire', 'A', 82], D, D, ['expire', 'B', 0, 1], D, D],
         'replay_requests': HANDSHAKE + [['replay', 2], ['replay', 0], ['expire', 'A', 0, 0], D, ['replay', 4], D,
@@ -211,7 +212,8 @@ SCRIPTED = ['handshake', 'new_child', 'new_child_from_responder', 'rekey_child',
             'replay_requests']
 # scripted histories that need something special (forced SPI collisions, a postponed IKE_SA rekey): used by the
 # handler correspondence and by individual oracles, not by the generic plans
-SPECIAL = ['spi_collision_out', 'spi_collision_in', 'spi_collision_rekey', 'postponed_rekey_then_child', 'ike_spi_reuse']
+SPECIAL = ['spi_collision_out', 'spi_collision_in', 'spi_collision_rekey', 'postponed_rekey_then_child', 'ike_spi_reuse',
+           'crossing_children']
 
 
 def random_walk(rng, n, handshake=True, weights=None):
